@@ -8,7 +8,33 @@ Inductive case :=
    being downloaded from; what the harness saw: every pumped command came back (true) or the manager
    was blocked (false); the peers contacted afterwards (sorted) and the candidates left (in order) *)
 | CFaults (n : N) (peers : list N) (interested : N) (pumps : list bool) (contacted cands : list N)
-          (kill_served : option bool).     (* a connection ending while the tracker was failing was handled at once *)
+          (kill_served : option bool)      (* a connection ending while the tracker was failing was handled at once *)
+(* the real TrackerClient::run against a loopback tracker that fails `fails` times in scripted ways (`refused` of them
+   with nothing listening) and then answers `body`: the commands the task sent (false = Fail, true = TrackerResp), the
+   peers of the reply it delivered, the requests the tracker saw, whether the task then ended by itself, whether it
+   asked again afterwards *)
+| CReal (fails refused : N) (body : bytes) (cmds : list bool) (peers : list (bytes * bytes)) (reqs : N) (done extra : bool).
+
+(* the model's tracker task (Tracker.v, tnext) run against a manager side that takes every command at once *)
+Fixpoint real_run (fuel : nat) (s : tsys) (acc : list tcmd) : list tcmd * bool :=
+  match fuel with
+  | O => (acc, false)
+  | S f =>
+      match tnext true s StTracker with
+      | Some s1 =>
+          match t_queue s1 with
+          | c :: _ => match tnext true s1 StMgrRecv with
+                      | Some s2 => real_run f s2 (acc ++ [c])
+                      | None => (acc, false)
+                      end
+          | [] => real_run f s1 acc
+          end
+      | None => (acc, match t_task s with TFinished => true | _ => false end)
+      end
+  end.
+Definition real_model (fails : N) : list bool * bool :=
+  let '(cs, fin) := real_run (3 * N.to_nat fails + 6) (t_init (N.to_nat fails)) [] in
+  (map (fun c => match c with TResp => true | TFail => false end) cs, fin).
 
 (* model of the scenario: the transition system under the schedule "tracker runs until it sleeps or
    blocks, then the manager handles one command" that the harness realises *)
@@ -86,6 +112,15 @@ Definition has_str_failure (d : dict) : bool :=
 
 Definition code (c : case) : N :=
   match c with
+  | CReal fails refused body cmds peers reqs done extra =>
+      let '(mc, mfin) := real_model fails in
+      let k := list_eqb Bool.eqb mc cmds && Bool.eqb mfin done in
+      (* any run of failed or malformed announces followed by a good one: one Fail per failed attempt, then the reply
+         with its peers, read faithfully; the task ends and asks nothing more *)
+      let o := list_eqb Bool.eqb cmds (repeat false (N.to_nat fails) ++ [true])
+               && peers_eqb peers (match tracker_resp_of body with Ok t => peers_out t | _ => [] end)
+               && (reqs + refused =? fails + 1) && done && negb extra in
+      (if k then 0 else 1) + (if o then 0 else 2)
   | CFaults n peers interested pumps contacted cands kill_served =>
       let '(mp, mc, mk) := faults_model n peers interested in
       (* the model's manager can always take another event before the tracker succeeded (C19_faults_never_blocked) *)
